@@ -8,32 +8,32 @@ import (
 	"github.com/lightninglabs/pool/order"
 )
 
-// verifOrderMgr is an order.Manager of which only the pending-batch accessors
+// verifC19OrderMgr is an order.Manager of which only the pending-batch accessors
 // are usable.
-type verifOrderMgr struct {
+type verifC19OrderMgr struct {
 	order.Manager
 	pending *order.Batch
 }
 
-func (m *verifOrderMgr) HasPendingBatch() bool      { return m.pending != nil }
-func (m *verifOrderMgr) PendingBatch() *order.Batch { return m.pending }
+func (m *verifC19OrderMgr) HasPendingBatch() bool      { return m.pending != nil }
+func (m *verifC19OrderMgr) PendingBatch() *order.Batch { return m.pending }
 
-// VerifRPCServerHandle runs the real rpcServer.handleServerMessage on a server
+// VerifC19RPCServerHandle runs the real rpcServer.handleServerMessage on a server
 // that has only an auctioneer client and a pending batch (possibly nil).
-func VerifRPCServerHandle(client *auctioneer.Client, pending *order.Batch,
+func VerifC19RPCServerHandle(client *auctioneer.Client, pending *order.Batch,
 	msg *auctioneerrpc.ServerAuctionMessage) error {
 
 	s := &rpcServer{
 		auctioneer:   client,
-		orderManager: &verifOrderMgr{pending: pending},
+		orderManager: &verifC19OrderMgr{pending: pending},
 	}
 	return s.handleServerMessage(msg)
 }
 
-// VerifAcceptorHandle runs the real SidecarAcceptor.handleServerMessage on an
+// VerifC19AcceptorHandle runs the real SidecarAcceptor.handleServerMessage on an
 // acceptor that has only an auctioneer client and a pending batch (possibly
 // nil).
-func VerifAcceptorHandle(client *auctioneer.Client, pending *order.Batch,
+func VerifC19AcceptorHandle(client *auctioneer.Client, pending *order.Batch,
 	msg *auctioneerrpc.ServerAuctionMessage) error {
 
 	a := &SidecarAcceptor{client: client, pendingBatch: pending}
